@@ -2,7 +2,7 @@
 from lib import hexs
 
 MODULE = "DtailModel.Props.C05"
-GROUPS = ["C05", "C11"]
+GROUPS = ["C05", "C11", "GEN"]
 LOGGER = "none"
 BUDGET = {"quick": 1500, "thorough": 40000}
 LEVEL_TEXT = ("Lean theorems: per operation the partial aggregates form a monoid under the merge, per-line aggregation is a "
@@ -60,7 +60,7 @@ def query(rng):
     return q
 
 
-def gen(rng, budget, tier):
+def _gen_hand(rng, budget, tier):
     for _ in range(budget):
         sparse = rng.choice([0.0, 0.2, 0.5, 0.8])
         n = rng.choice([0, 1, 2, 5, 10, 40])
@@ -86,3 +86,15 @@ def model_case(case, impl):
 
 def impl_view(case, impl):
     return impl.split("#", 1)[0]
+
+
+def gen(rng, budget, tier):
+    # tie G: the translated aggregateset.go (Aggregate, Merge, helpers) and the real functions on the same scripts
+    from props import gen_tie
+    yield from gen_tie.gen_agg(rng, 400 if tier == "quick" else 20000)
+    yield from _gen_hand(rng, budget, tier)
+
+
+from props import gen_tie as _gt
+CANON = dict(globals().get("CANON", {}))
+CANON["gen.agg"] = _gt.canon_agg
